@@ -26,10 +26,16 @@ def run(tier, chk):
     if tier != "quick":
         # the scenario families of the other checks, judged by the same wire rules
         corpus.cross(chk, "C14", "C14_Trace", sig_of=lambda s, t, w: f"c14:corpus:{s.get('family')}:" + sig(s, t, w), exclude=("C14",))
+    # WebTransport sessions whose server-opened streams are written 1 or 3 bytes at a time (the C19 scenarios with partial writes):
+    # every stream the endpoint opens must still begin with a legal stream type / signal value
+    wts = [w for w in common.gen_scenarios(chk, wd, "C19_Gen", workers=2, label="wtgen") if (w.get("cfg") or {}).get("write") in ("1", "3")]
+    for w in wts:
+        w["cfg"] = dict(w["cfg"], log_wrote=True, setup_log=True)
+    common.run_sim(chk, wd, wts, "C14_Trace", label="wtsim", shards=2, sig_of=lambda s, t, w: "c14:webtransport-stream-header-under-partial-writes")
     # binding A: the byte image of DATA frames whose payload buffer is not contiguous (two pieces), drained in several step sizes
     nv = common.run_vectors(chk, wd, "C14W_Gen", workers=2, label="wbuf", sig_of=lambda v, got: "wbuf:panic" if isinstance(got, dict) and "panic" in got else "wbuf:data-frame-image")
     chk.exhaustive = True
-    chk.distinct_nontrivial = len(scns) + len(pair) + nv
+    chk.distinct_nontrivial = len(scns) + len(pair) + nv + len(wts)
     chk.rule = (f"API programs of up to {m} calls after the head (send_data 0/1/5/70 bytes, send_trailers, finish, drop) x shutdown(n in 0,1,15,4095: GOAWAY identifiers at varint form boundaries) x second request x 5 configurations "
                 "(grease, 1- and 3-byte writes, uni-stream credit withheld then granted) for both roles against a scripted peer, plus the C01 client<->server catalogue; every stream's "
                 "byte log judged by WireOut at quiescence; plus the WriteBuf image of DATA frames with a two-piece (non-contiguous) payload buffer, 4 x 5 piece lengths x 6 drain patterns")
